@@ -3,6 +3,7 @@ import SwcVerif.Gen.Matrices
 import SwcVerif.Gen.VolumeFormulas
 import SwcVerif.Gen.VolumeTerms
 import SwcVerif.Gen.LMeasureArith
+import SwcVerif.Model.Volume
 /-! Driver ops that evaluate the GENERATED definitions at `Float`, so that the translator itself
 is cross-checked against the Python functions it read (DESIGN.md §3). -/
 namespace Geom
@@ -45,7 +46,7 @@ def eps : Float := Float.ofNat Gen.Vol.epsNum / Float.ofNat Gen.Vol.epsDen
 
 /-- geometric facts about the sphere / frustum configuration (hand-modelled, see Props/C13):
 exit parameter of the lateral edge, height and radius of the exit circle -/
-def exitT (r1 r2 h : Float) : Float := 2 * r1 * (r1 - r2) / (h * h + (r1 - r2) * (r1 - r2))
+def exitT (r1 r2 h : Float) : Float := exitTK r1 r2 h
 
 /-- `vol f=sphere|cap|frustum|lens|concentric a=..` -/
 def handleVol (args : List String) : String :=
@@ -68,18 +69,26 @@ def handleVol (args : List String) : String :=
   | some "pasym", some [n1, n2] => Proto.showFloat (Gen.LM.partitionAsymmetry n1 n2)
   | _, _ => "bad-args"
 
-/-- `voltree acc=<n> nodes=s:f:p:c:l:q;s:f:p:c:l:q;…` → Σ nodeVolume (the `volume += v` accumulation) -/
+/-- `voltree acc=<n> ids=.. pids=.. nodes=s:f:p:c:l:q;…` (row k = node ids[k]) → `Vol.treeVolume`: the
+traversal machine with the `leave` callback of `_get_volume_frustum_cone` -/
 def handleVolTree (args : List String) : String :=
-  match Proto.argNat args "acc", Proto.arg args "nodes" with
-  | some acc, some ns =>
+  match Proto.argNat args "acc", Proto.arg args "nodes", Proto.argInts args "ids", Proto.argInts args "pids" with
+  | some acc, some ns, some ids, some pids =>
     let rows := (ns.splitOn ";").filter (· ≠ "")
     let vals := rows.mapM (fun r => (r.splitOn ":").mapM Proto.float?)
     match vals with
     | none => "bad-args"
     | some vs =>
-      let tot := vs.foldl (fun a v => match v with
-        | [s, f, p, c, l, q] => a + Gen.VolTerms.nodeVolume acc s f p c l q
-        | _ => a + (0.0 / 0.0)) 0.0
-      Proto.showFloat tot
-  | _, _ => "bad-args"
+      let nan : Float := 0.0 / 0.0
+      let tbl : List (Int × Vol.Terms Float) := (ids.zip vs).map (fun (i, v) => match v with
+        | [s, f, p, c, l, q] => (i, ⟨s, f, p, c, l, q⟩)
+        | _ => (i, ⟨nan, nan, nan, nan, nan, nan⟩))
+      let terms : Int → List Int → Vol.Terms Float := fun i _ =>
+        match tbl.find? (·.1 == i) with
+        | some (_, t) => t
+        | none => ⟨nan, nan, nan, nan, nan, nan⟩
+      match ids with
+      | [] => "0e0"
+      | root :: _ => Proto.showFloat (Vol.treeVolume acc terms ids pids root (2 * ids.length + 2))
+  | _, _, _, _ => "bad-args"
 end Geom
